@@ -86,9 +86,27 @@ def env_level(ctx: Ctx):
         ctx.count(f"action-map-order:{order}")
         ctx.count("action-map-entries-listed-out-of-ascending-order", relisted)
         name = f"{name}[{order}]"
-        for ep in range(ctx.scale(1, 3) if order == "as-listed" else 1):
+        for ep in range(ctx.scale(2, 3) if order == "as-listed" else 1):
             ep_seed = rng.below(10 ** 6)
-            env.reset(seed=ep_seed)
+            if ep > 0:
+                # reset-boundary oracle: a user who read the mask after the LAST step of an episode and reads it again right after
+                # reset() must get the mask of the NEW episode's initial state (nothing may be carried across the reset)
+                before = [int(b) for b in env.action_masks()]
+                env.reset(seed=ep_seed)
+                after = [int(b) for b in env.action_masks()]
+                fresh = [int(b) for b in env.game.action_mask(env._agent_name)] if env.agent.config.agent_settings.action_masking else after
+                ctx.count("reset-boundary:" + ("mask-changed-over-reset" if before != after else "mask-same-over-reset"))
+                if after != fresh:
+                    bad = [i for i in range(len(after)) if after[i] != fresh[i]]
+                    ctx.violation({"kind": "mask-carried-across-reset", "entries": len(bad)},
+                                  f"{name} reset before ep{ep}: env.action_masks() right after reset() differs from the mask of the new "
+                                  f"episode's state at {len(bad)} entries, e.g. action {bad[0]} {amap[bad[0]][0]} {amap[bad[0]][1]}: "
+                                  f"handed out {after[bad[0]]}, state says {fresh[bad[0]]}",
+                                  {"mode": "mask-reset", "scenario": base_name, "key_order": key_order, "seed": prev_seed,
+                                   "actions": list(taken), "reset_seed": ep_seed})
+            else:
+                env.reset(seed=ep_seed)
+            prev_seed = ep_seed
             taken: List[Any] = []  # what led to the current state: action numbers (env.step) and raw requests (executed-action oracle)
             n_actions = env.action_space.n
             amap = env.agent.action_manager.action_map
@@ -217,7 +235,7 @@ def env_level(ctx: Ctx):
 
 def replay(rec: dict) -> bool:
     rp = rec["replay"]
-    if rp.get("mode") not in ("mask-env", "mask-exec", "mask-step"):
+    if rp.get("mode") not in ("mask-env", "mask-exec", "mask-step", "mask-reset"):
         return c05.replay(rec)
     # rebuild the environment with the recorded listing order of every action map, re-seed, re-take the recorded actions, and
     # compare the mask bit of the recorded entry with what __call__ does (stubbed handlers) at that state
@@ -228,6 +246,21 @@ def replay(rec: dict) -> bool:
             a["action_space"]["action_map"] = {k: am[k] for k in keys}
     env = scen.make_env(cfg)
     env.reset(seed=rp["seed"])
+    if rp["mode"] == "mask-reset":
+        for a in rp["actions"]:
+            if isinstance(a, list):
+                try:
+                    env.game.simulation.apply_request(list(a))
+                except Exception:
+                    pass
+            else:
+                env.step(a)
+        env.action_masks()
+        env.reset(seed=rp["reset_seed"])
+        after = [int(b) for b in env.action_masks()]
+        fresh = [int(b) for b in env.game.action_mask(env._agent_name)] if env.agent.config.agent_settings.action_masking else after
+        env.close()
+        return after == fresh
     for a in rp["actions"]:
         if isinstance(a, list):
             try:
